@@ -18,6 +18,8 @@ CONSTANTS
   B,          \* burst
   MaxTime,
   MaxArrivals,
+  Fates,      \* what can become of an admitted request: "served" (the wrapped service answers) and/or
+              \* "dropped" (its caller hangs up while the wrapped service is at it)
   Depth       \* > 0: emit behaviours whose arrivals all happen at time 0 (exact replay)
 
 VARIABLES now, tat, log, hist
@@ -35,7 +37,11 @@ Arrive(k) ==
           /\ log' = Append(log, [k |-> k, t |-> now, admit |-> TRUE, wait |-> 0])
      ELSE /\ UNCHANGED tat
           /\ log' = Append(log, [k |-> k, t |-> now, admit |-> FALSE, wait |-> Earliest(k) - now])
-  /\ hist' = Append(hist, [k |-> k, admit |-> log'[Len(log')].admit])
+  (* what becomes of an admitted request afterwards is none of the limiter's business: a cell that *)
+  (* was taken stays taken whether the request is answered or its caller hangs up half-way          *)
+  /\ IF now >= Earliest(k)
+     THEN \E f \in Fates : hist' = Append(hist, [k |-> k, admit |-> TRUE, fate |-> f])
+     ELSE hist' = Append(hist, [k |-> k, admit |-> FALSE, fate |-> "refused"])
   /\ UNCHANGED now
 
 Tick == now < MaxTime /\ now' = now + 1 /\ UNCHANGED <<tat, log, hist>>
